@@ -3,7 +3,7 @@ Tie B: hand-written Gallina byte-level codec / reader / writers (coq/C15/Model.v
 property theorems in coq/C15/Properties.v; correspondence = extracted model vs the real
 rkcommon/networking/DataStreaming code (ASan+UBSan) on the same cases, every observation diffed;
 an independent python oracle (this file) classifies any difference."""
-import itertools, json, os, struct
+import itertools, json, os, struct, subprocess
 import vlib
 
 REPO_SRC = ["rkcommon/networking/DataStreaming.cpp"]
@@ -315,6 +315,44 @@ def gen_W(r):
     return "W " + " ".join(ops)
 
 
+# ------------------------------------------------------------------------------ running the code
+def run_to_file(ctx, exe, cases, timeout):
+    """run the harness with stdout in a file so that the lines printed before a crash / a kill survive"""
+    inp, outp, errp = (os.path.join(ctx.build, "impl_%s.txt" % k) for k in ("in", "out", "err"))
+    open(inp, "w").write("\n".join(cases) + "\n")
+    env = dict(os.environ)
+    env.update(ctx.SAN_ENV)
+    with open(inp) as fi, open(outp, "w") as fo, open(errp, "w") as fe:
+        try:
+            rc = subprocess.run([exe], stdin=fi, stdout=fo, stderr=fe, env=env, timeout=timeout).returncode
+        except subprocess.TimeoutExpired:
+            rc = 124
+    out = open(outp, errors="replace").read()
+    return rc, out.split("\n")[:-1], open(errp, errors="replace").read()[-3000:]
+
+
+def run_impl_resumable(ctx, exe, cases, timeout, max_restarts=6):
+    """-> (one line per case, [(case index, rc, stderr tail)]).  When the harness dies (sanitizer report,
+    signal, watchdog) the case is marked and the run resumes behind it."""
+    lines, events, start = [], [], 0
+    while start < len(cases):
+        rc, got, err = run_to_file(ctx, exe, cases[start:], timeout)
+        got = got[:len(cases) - start]
+        lines.extend(got)
+        n = start + len(got)
+        if n >= len(cases):
+            if rc != 0:
+                events.append((len(cases), rc, err))
+            break
+        events.append((n, rc, err))
+        lines.append("<no output: harness died rc=%d>" % rc)
+        start = n + 1
+        if len(events) > max_restarts:
+            lines.extend(["<not run: too many harness crashes>"] * (len(cases) - start))
+            break
+    return lines, events
+
+
 # ------------------------------------------------------------------------------ check
 def fields_T(line):
     return dict(p.split("=", 1) for p in line.replace(" dec=", "\x00dec=").replace(" end=", "\x00end=").split("\x00")[0].split(" ")
@@ -411,11 +449,14 @@ def run(ctx):
         add("writer_raw", [gen_W(r) for _ in range(ctx.pick(300, 3000))])
     ctx.log("cases: %d %s" % (len(cases), mix))
 
-    impls = [("DataStreaming", exe, [])]
-    mism, crashes, mlines = vlib.differential(ctx, cases, model, impls, timeout=1500)
+    _, _, mlines = vlib.differential(ctx, cases, model, [], timeout=1500)
     ctx.count(len(cases))
     if len(mlines) != len(cases):
         return
+    ilines, events = run_impl_resumable(ctx, exe, cases, timeout=ctx.pick(300, 1500))
+    mism = [(i, "DataStreaming", il, ml) for i, (il, ml) in enumerate(zip(ilines, mlines))
+            if il != ml and not il.startswith("<not run") and not il.startswith("<no output")]
+    ctx.cov["harness_deaths"] = len(events)
 
     # ---- coverage bookkeeping (measured on the model's observations)
     hist = {"types": {}, "ops": {}, "outcomes": {}}
@@ -472,10 +513,16 @@ def run(ctx):
     ctx.cov["model_vs_oracle_mismatches"] = nbad
 
     # ---- crashes / sanitizer reports of the harness on the real code
-    for label, (rc, err, n) in crashes.items():
-        ctx.violation("harness crashed (rc=%d) - sanitizer report / abort on the real code" % rc,
-                      {"label": label, "stderr_tail": err, "case": cases[n] if n < len(cases) else None,
-                       "required": "no crash, no sanitizer report (the property demands that no memory outside the buffer is touched)"},
+    for (n, rc, err) in events[:3]:
+        what = ("harness killed by its watchdog / timeout (rc=%d): the case does not finish on the real code" % rc
+                if rc in (124, -14) else
+                "harness crashed (rc=%d) - sanitizer report / abort on the real code" % rc)
+        ctx.violation(what,
+                      {"stderr_tail": err, "case": cases[n] if n < len(cases) else None,
+                       "required": oracle(cases[n]) if n < len(cases) else "no crash",
+                       "required_also": "no crash, no sanitizer report, termination (the property demands that no memory outside "
+                                        "the buffer is touched and that reading back yields the values written)",
+                       "harness_deaths_total": len(events)},
                       found_input=n < len(cases))
 
     # ---- differences: classify with the independent oracle, one report per kind of difference
@@ -506,6 +553,11 @@ def run(ctx):
             small = vlib.shrink_list(units, fails) if len(units) > 1 else units
             line = (head + " " + " ".join(small)).strip()
             obs = impl_line(line)
+            if obs == oracle(line):                 # shrinking went wrong: fall back to the original case
+                line, obs = cases[i], impl_line(cases[i])
+            if obs == oracle(line):                 # not reproducible in isolation (state carried over a crash?)
+                ctx.broken.append("difference on case %r not reproducible in isolation: batch=%r single=%r" % (cases[i][:200], il[:200], obs[:200]))
+                continue
             ctx.violation("DataStreaming disagrees with the required behaviour (%s; %d cases of this kind)" % (key, len(idxs)),
                           {"case": line, "observed": obs, "required": oracle(line),
                            "differs_in": differing(line[0], obs, oracle(line)), "original_case": cases[i]})
